@@ -2,6 +2,7 @@ package packet
 
 import (
 	"bytes"
+	"sync"
 
 	vp "github.com/Tnze/go-mc/internal/zzvp"
 )
@@ -26,13 +27,28 @@ func vpPayload() []byte {
 	if vp.Tier() == 1 {
 		max = 8
 	}
-	k := vp.Choice(max + 1 + 4*vp.Tier())
+	// besides the short fully symbolic payloads: concrete lengths around the
+	// VarInt boundaries of the frame / data length fields and beyond the initial
+	// capacity of the pooled buffer, with symbolic first and last byte
+	long := []int{60, 120, 127}
+	if vp.Tier() == 1 {
+		long = []int{60, 115, 120, 126, 127, 128, 16382, 16383}
+	}
+	k := vp.Choice(max + 1 + len(long))
 	if k <= max {
 		return vp.Bytes(k)
 	}
-	// thorough: concrete lengths at the VarInt boundaries, symbolic first and last byte
-	n := []int{126, 127, 128, 16383}[k-max-1]
+	n := long[k-max-1]
 	p := make([]byte, n)
+	// a fixed pseudo-random filling: the native replay runs real deflate, which
+	// must not shrink the payload below the sizes the model codec produces
+	x := uint32(2463534242)
+	for i := range p {
+		x ^= x << 13
+		x ^= x >> 17
+		x ^= x << 5
+		p[i] = byte(x >> 11)
+	}
 	p[0], p[n-1] = vp.Byte(), vp.Byte()
 	return p
 }
@@ -81,7 +97,10 @@ func vpThreshold() int {
 // pack; independent reader accepts the frame; unpack (reused receiver) returns
 // the packet and consumes exactly the frame.
 func VP_C07_roundtrip() {
-	vp.SizeBound(64)
+	vp.SizeBound(17000)
+	// start from an empty buffer pool, as a fresh process would (the native
+	// replay runs many cases in one process)
+	bufPool = sync.Pool{New: func() any { return new(bytes.Buffer) }}
 	id := vp.Int32()
 	data := vpPayload()
 	t := vpThreshold()
@@ -90,6 +109,9 @@ func VP_C07_roundtrip() {
 	err := p.Pack(&w, t)
 	vp.Assert(err == nil, "Pack err==nil")
 	frame := append([]byte{}, w.Bytes()...)
+	if t < 0 || len(data) < t {
+		vp.Observe("frame", frame) // (compressed frames differ: model codec vs real zlib)
+	}
 	vpCheckFrame(frame, id, data, t)
 	trail := vp.Bytes(2)
 	r := bytes.NewReader(append(append([]byte{}, frame...), trail...))
